@@ -164,6 +164,9 @@ func (e *runEnv) doOp(t int, op plan.SOp, locals *[]*Object, checkDatum bool) op
 		rec.Out = Outcome{Op: op.Kind, Skip: true}
 	}
 	verifsim.EndOp()
+	if ctx.ChildPanic != "" && rec.Out.Panic == "" {
+		rec.Out.Panic = normErr(ctx.ChildPanic)
+	}
 	rec.Return = verifsim.Steps()
 	rec.Steps = ctx.Steps
 	rec.StoreOffs = ctx.StoreOffs
@@ -206,6 +209,9 @@ func (e *runEnv) freshOp(task []plan.SOp, op plan.SOp) opRec {
 			rec.Out = obj.Expression()
 		}
 		verifsim.EndOp()
+		if ctx.ChildPanic != "" && rec.Out.Panic == "" {
+			rec.Out.Panic = normErr(ctx.ChildPanic)
+		}
 	case "create":
 		verifsim.BeginOp(ctx)
 		rec.Out = NewObject(*op.New).CreateOutcome()
@@ -323,6 +329,7 @@ func runConc(p *plan.SchedPlan, refSteps [][]int) *passResult {
 		}(t)
 	}
 	wg.Wait()
+	verifsim.WaitChildren()
 	verifsim.SetMode(verifsim.ModeOff)
 	res.Stats = verifsim.RunStats()
 	res.Log = verifsim.Log()
@@ -771,7 +778,7 @@ func GenSchedPlan(seed uint64, idx int, prop string) *plan.SchedPlan {
 // callers reach at the same program point; lockstep and sync-gap schedules then
 // interleave them inside it. Half of these plans quantify over long lists.
 func genHammer(p *plan.SchedPlan, r *plan.Rand, uniq string, k int) *plan.SchedPlan {
-	gens := append(append([]string{}, DatumGens...), "longlist", "longlist", "longlist", "longlist", "coll:long", "coll:long", "coll:slice", "coll:map", "coll:array")
+	gens := append(append([]string{}, DatumGens...), "longlist", "longlist", "longlist", "longlist", "coll:long", "coll:long", "coll:slice", "coll:map", "coll:array", "coll:huge")
 	gen := gens[r.Intn(len(gens))]
 	nData := r.Range(1, 2)
 	for i := 0; i < nData; i++ {
@@ -987,7 +994,7 @@ type schedResult struct {
 
 func planHash(p *plan.SchedPlan) uint64 {
 	q := *p
-	q.Build, q.Expect, q.RefOut = "", "", nil
+	q.Build, q.Expect, q.RefOut, q.Procs = "", "", nil, 0
 	b, _ := json.Marshal(&q)
 	return hashBytes(b)
 }
